@@ -19,7 +19,7 @@ NAMES = ["doc", "head", "body", "item", "name", "value", "code", "note", "row", 
          "Title", "sub-item", "x.y"]
 ATTR_NAMES = ["id", "ref", "refs", "lang", "status", "kind", "code", "n", "created_at", "data-x", "level"]
 TEXTS = ["abc", "x y", "Hello, World", "é中", "a<b&c", "0", "1.5", "true", "  padded  ", "line1\nline2"]
-CDATA = ["v", "a b", "", "é", "1", "x<y&z", "it's \"q\""]
+CDATA = ["v", "a b", "", "é", "1", "x<y&z", "it's \"q\"", ", ", "  ", "NB: ", " x  y "]
 NMTOKENS = ["tok", "a.b-c", "x1", "_u"]
 ENUMS = [["draft", "published"], ["a", "b", "c"], ["on", "off"], ["x-1", "x.2", "X"]]
 
@@ -71,7 +71,17 @@ def dtd_specs(draw, opts=None):
             for a in attrs:
                 if a["type"] not in ("ID", "IDREF", "IDREFS") and draw(st.booleans()):
                     a["prefix"] = draw(st.sampled_from(nsdecls))[0]
+            if attrs and draw(st.booleans()):
+                # the same local name once more under a prefix (xlink:href next to href)
+                twin = draw(st.sampled_from(attrs))
+                if not twin.get("prefix") and twin["type"] not in ("ID", "IDREF", "IDREFS"):
+                    attrs.append({"name": twin["name"], "type": "CDATA", "mode": "#IMPLIED", "value": None, "prefix": draw(st.sampled_from(nsdecls))[0]})
             nsdecls = {"decls": [list(x) for x in nsdecls], "first": first}
+        if draw(st.integers(0, 5)) == 0 and not any(a["name"] == "lang" and a.get("prefix") for a in attrs):
+            # xml:lang needs no declaration; it may sit next to a plain `lang`
+            attrs.append({"name": "lang", "type": "NMTOKEN", "mode": draw(st.sampled_from(["#IMPLIED", "default"])), "value": "en", "prefix": "xml"})
+            if attrs[-1]["mode"] == "#IMPLIED":
+                attrs[-1]["value"] = None
         elements[nm] = {"content": content, "attrs": attrs, "nsdecls": nsdecls or None}
     # the text that follows an ANY child inside mixed content is moved into that child (recorded finding, as C02 mixed-tail-...)
     for e in elements.values():
@@ -217,6 +227,7 @@ class InstanceGen:
         d = self.d
         e = self.spec["elements"][name]
         uris = dict(map(tuple, e["nsdecls"]["decls"])) if e.get("nsdecls") else {}
+        uris["xml"] = "http://www.w3.org/XML/1998/namespace"
         for a in e["attrs"]:
             if a.get("prefix"):
                 a = dict(a, name="{%s}%s" % (uris[a["prefix"]], a["name"]))
